@@ -4,7 +4,7 @@ CONSTANTS
   InitLive = {"h1", "h2", "o1"}
   Variant = "sync"
   AllowClone = FALSE
-  AllowTake2 = TRUE
+  AllowTake2 = FALSE
   AllowCancel = FALSE
   AllowSpurious = FALSE
   FileLayer = FALSE
